@@ -512,7 +512,7 @@ def _roundtrip_one(log, subject, var, real):
         log.collect_ctx()
         return True
 
-    _r, pm = explore(run, max_paths=64)
+    _r, pm = explore(run, max_paths=512)
     log.path_stats(pm)
     _validate(log, subject, var, real)
 
@@ -556,7 +556,7 @@ def case_xgrid(log, var):
         log.twin("domain")
         log.collect_ctx()
 
-    _r, pm = explore(run, max_paths=64)
+    _r, pm = explore(run, max_paths=512)
     log.path_stats(pm)
 
 
@@ -620,7 +620,8 @@ def case_interpolator(log, var):
         c = CS.Cmp()
         c.leaf(disp.log, is_log, "log")
         v = prove_formula(c.formula() if not c.mismatch else z3.BoolVal(False), "interpolator(card).log == card.configs.interpolation_is_log")
-        _decide(log, v, key="interpolator:log", replay=(MOD, "replay_interpolator", dict(rk, aspect="log")), candidates=[{}])
+        klog = "interpolator:log" if var["source"] == "raw" else "interpolator:log:card-object"
+        _decide(log, v, key=klog, replay=(MOD, "replay_interpolator", dict(rk, aspect="log")), candidates=[{}])
         c = CS.Cmp()
         c.leaf(disp.polynomial_degree, deg, "degree")
         v = prove_formula(c.formula() if not c.mismatch else z3.BoolVal(False),
@@ -631,7 +632,7 @@ def case_interpolator(log, var):
             c.leaf(bf._mode_log, is_log, "basis.mode_log")
         ok = len(_BasisRecorder.made) == n and not c.mismatch
         v = prove_formula(c.formula() if ok else z3.BoolVal(False), "all %d basis functions are built with mode_log == interpolation_is_log" % n)
-        _decide(log, v, key="interpolator:log", replay=(MOD, "replay_interpolator", dict(rk, aspect="basis")), candidates=[{}])
+        _decide(log, v, key=klog, replay=(MOD, "replay_interpolator", dict(rk, aspect="basis")), candidates=[{}])
         # every block [kmin,kmax] spans degree+1 grid points inside the grid
         fs = []
         for bf in _BasisRecorder.made[:1]:
